@@ -5,6 +5,7 @@ Every handler calls the very definitions the theorems are about.
 import PdbModel.Basic
 import PdbModel.Hier
 import PdbModel.Level
+import PdbModel.DriverC12
 namespace PdbModel
 
 def parseLevels (t : String) : Option (List ErrorLevel) :=
@@ -35,6 +36,7 @@ def handle (line : String) : String :=
   | [] => ""
   | ["-"] => "-"
   | "c07" :: rest => (handleC07 rest).getD "BAD-REQUEST"
+  | "c12" :: rest => (handleC12 rest).getD "BAD-REQUEST"
   | _ => "BAD-REQUEST"
 
 end PdbModel
